@@ -37,7 +37,7 @@ def replay_store(prop, path):
         S.run(other)
         cases += other
         corr = S.correspondence(cases)
-    oracle = {"C09": S.oracle_c09, "C10": S.oracle_c10, "C18": S.oracle_c18}[prop]
+    oracle = {"C09": S.oracle_c09, "C10": S.oracle_c10, "C18": S.oracle_c18, "C08": S.oracle_c08_routing}[prop]
     res = oracle(cases)
     fails = res[0] if isinstance(res, tuple) else res
     for c in cases:
@@ -125,6 +125,8 @@ def replay(prop, path):
         return replay_store(prop, path)
     if prop == "C20":
         return replay_mgr(path)
+    if prop == "C08" and any(l.startswith("backend ") for l in _lines(path)):
+        return replay_store(prop, path)      # a storage-level routing trace of C08
     if prop in WORLD:
         return replay_world(prop, path)
     print(f"no replay for {prop}"); return 2
